@@ -73,83 +73,58 @@ class Facts:
     def add(self, e):
         return Facts(self.items + [e])
 
-    def _graph(self):
-        # constraint x - y >= c  <=>  y - x <= -c : edge x -> y with weight -c   (dist[y] <= dist[x] + w)
-        edges = []
-        for e in self.items:
-            d = self._as_diff(e)
-            if d is None:
-                continue
-            x, y, c = d     # x - y >= c
-            edges.append((x, y, -c))
-        return edges
-
     @staticmethod
-    def _as_diff(e):
-        vs = list(e.c.items())
-        if len(vs) == 0:
-            return ('0', '0', -e.k)
-        if len(vs) == 1:
-            v, a = vs[0]
-            if a == 1:
-                return (v, '0', -e.k)        # v + k >= 0  => v - 0 >= -k
-            if a == -1:
-                return ('0', v, -e.k)        # -v + k >= 0 => 0 - v >= -k
-            return None
-        if len(vs) == 2:
-            (v1, a1), (v2, a2) = vs
-            if a1 == 1 and a2 == -1:
-                return (v1, v2, -e.k)
-            if a1 == -1 and a2 == 1:
-                return (v2, v1, -e.k)
-        return None
+    def _infeasible(cons):
+        """Fourier-Motzkin over the rationals: is  {e >= 0 for e in cons}  empty?  (sound for integers)"""
+        cons = [(dict(e.c), Fraction(e.k)) for e in cons]
+        for _ in range(64):
+            # constant constraints
+            rest = []
+            for c, k in cons:
+                c = {v: a for v, a in c.items() if a != 0}
+                if not c:
+                    if k < 0:
+                        return True
+                    continue
+                rest.append((c, k))
+            cons = rest
+            if not cons:
+                return False
+            # pick the variable with the fewest pos*neg products
+            vs = {}
+            for c, _k in cons:
+                for v, a in c.items():
+                    p, n = vs.get(v, (0, 0))
+                    vs[v] = (p + (a > 0), n + (a < 0))
+            v = min(vs, key=lambda x: vs[x][0] * vs[x][1])
+            pos = [(c, k) for c, k in cons if c.get(v, 0) > 0]
+            neg = [(c, k) for c, k in cons if c.get(v, 0) < 0]
+            oth = [(c, k) for c, k in cons if c.get(v, 0) == 0]
+            new = list(oth)
+            for cp, kp in pos:
+                for cn, kn in neg:
+                    a, b = Fraction(cp[v]), Fraction(-cn[v])
+                    comb = {}
+                    for w in set(cp) | set(cn):
+                        if w == v:
+                            continue
+                        comb[w] = Fraction(cp.get(w, 0)) * b + Fraction(cn.get(w, 0)) * a
+                    new.append((comb, kp * b + kn * a))
+            if len(new) > 4000:
+                return False
+            cons = new
+        return False
 
     def entails(self, e):
-        """True if the facts imply e >= 0, False if not provable"""
-        d = self._as_diff(e)
-        if d is None:
-            return False
-        x, y, c = d          # want x - y >= c, i.e. y - x <= -c : shortest path x -> y has weight <= -c
-        if x == y:
-            return 0 >= c
-        edges = self._graph()
-        nodes = {x, y, '0'}
-        for a, b, _ in edges:
-            nodes.add(a)
-            nodes.add(b)
-        INF = float('inf')
-        dist = {n: INF for n in nodes}
-        dist[x] = 0
-        for _ in range(len(nodes)):
-            ch = False
-            for a, b, w in edges:
-                if dist[a] + w < dist[b]:
-                    dist[b] = dist[a] + w
-                    ch = True
-            if not ch:
-                break
-        return dist[y] <= -c
+        """True if the facts imply e >= 0 (integers); False if not provable"""
+        return self._infeasible(self.items + [(-e) - 1])
 
     def contradicts(self, e):
-        """True if facts imply NOT (e >= 0), i.e. -e - 1 >= 0"""
-        return self.entails((-e) - 1)
+        """True if facts imply NOT (e >= 0)"""
+        return self._infeasible(self.items + [e])
 
     def inconsistent(self):
-        edges = self._graph()
-        nodes = {'0'}
-        for a, b, _ in edges:
-            nodes.add(a)
-            nodes.add(b)
-        dist = {n: 0 for n in nodes}
-        for i in range(len(nodes) + 1):
-            ch = False
-            for a, b, w in edges:
-                if dist[a] + w < dist[b]:
-                    dist[b] = dist[a] + w
-                    ch = True
-            if not ch:
-                return False
-        return True
+        return self._infeasible(self.items)
 
     def __repr__(self):
         return ' ∧ '.join('%r ≥ 0' % e for e in self.items) or 'true'
